@@ -87,7 +87,7 @@ fn variants(kind: &str) -> Vec<&'static str> {
             "cdata/parsed", "cdata/created", "merged/parsed", "text/detached", "cdata/detached", "comment/detached",
         ],
         "text" => vec!["text/created"],
-        "attr" => vec!["attr/set"],
+        "attr" => vec!["attr/set", "attrtext/second"],
         "comment" => vec!["comment/created"],
         "cdata" => vec!["cdata/created"],
         "pi" => vec!["pi/created"],
@@ -155,6 +155,19 @@ fn build(variant: &'static str, s: &str) -> Result<Subject, String> {
                     _ => doc.create_comment(s).as_node(),
                 };
                 Ok(Subject { doc, node, attr: None, variant })
+            }
+            "attrtext/second" => {
+                // the SECOND text child of an attribute whose first child holds a double quote: what the value as a
+                // whole needs (both quote characters, say) only shows when the children are put together
+                if s.contains('<') || s.contains('&') {
+                    return Err("skip".into()); // not storable in a text node made by the factory (see attr/set)
+                }
+                let doc = parse("<r x='\"'/>", false).ok_or("skip")?;
+                let e = root(&doc).ok_or("skip")?;
+                let a = e.get_attribute_node("x").ok_or("skip")?;
+                let node = doc.create_text_node(s).as_node();
+                a.append_child(node.clone()).map_err(|e| format!("refused:{}", err_name(&e)))?;
+                Ok(Subject { doc, node, attr: Some(a), variant })
             }
             "attr/set" => {
                 let doc = parse("<r/>", false).ok_or("skip")?;
@@ -415,7 +428,7 @@ impl<'a> Rec<'a> {
         if let Some(n2) = &newnode {
             let me = sub.node.id();
             let parent_kids: Vec<XmlNode> = match (&sub.attr, sub.variant) {
-                (Some(a), "attrtext/parsed") => a.child_nodes().iter().collect(),
+                (Some(a), "attrtext/parsed") | (Some(a), "attrtext/second") => a.child_nodes().iter().collect(),
                 _ => root(&sub.doc).map(|e| e.child_nodes().iter().collect()).unwrap_or_default(),
             };
             let pos = parent_kids.iter().position(|k| k.id() == me);
